@@ -46,6 +46,8 @@ class C20(Plugin):
     def corpus(self):
         out = [{"k": 6, "block": b} for b in range(256)] + [{"k": 7, "block": b} for b in range(0, 256, 4)]
         out += [{"k": 0, "s": s} for s in INTERESTING]
+        out += [{"k": 8, "names": ["1x", "h1"]}, {"k": 8, "names": ["-x", "data-x", "a.b", ".x", "a.b"]},
+                {"k": 8, "names": ["é", "h1", "·x", "a·b"], "pubid": "café"}]
         out += [{"k": 1, "s": s} for s in ["U0005500041 U00041", "U00041U00042U00041", "aU0003Ab", "UU00041",
                                            "U٠٠٠٤١"]]
         for dd in (0, 1):
@@ -62,7 +64,12 @@ class C20(Plugin):
             r = rng.random()
             s = "".join(rng.choice(INTERESTING) if rng.random() < 0.8 else chr(rng.randrange(0x20, 0xFFFF))
                         for _ in range(rng.randint(1, 6)))
-            if r < 0.35:
+            if r < 0.1:
+                # one shared InfosetFilter instance over a history of calls (results must not depend on history)
+                yield {"k": 8, "names": ["".join(rng.choice(INTERESTING[:20]) for _ in range(rng.randint(1, 3)))
+                                         for _ in range(rng.randint(2, 5))],
+                       "pubid": rng.choice([None, "café", "a b", "x·y"])}
+            elif r < 0.35:
                 yield {"k": 0, "s": s}
             elif r < 0.55:
                 from html5lib._ihatexml import InfosetFilter
@@ -101,6 +108,8 @@ class C20(Plugin):
             return [5, case["s"]]
         if k == 7:
             return [7, list(range(case["block"] * 256, case["block"] * 256 + 1024))]
+        if k == 8:
+            return [8, case["names"]]
         return None   # k == 6: the implementation against expat (oracle only)
 
     def impl(self, case):
@@ -125,6 +134,11 @@ class C20(Plugin):
                 return F(replaceFormFeedCharacters=bool(case["ff"])).coerceCharacters(case["s"])
             if k == 5:
                 return F.replacementRegexp.findall(case["s"])
+            if k == 8:
+                f = F()
+                if case.get("pubid"):
+                    f.coercePubid(case["pubid"])
+                return [[f.toXmlName(n)] for n in case["names"]]
             if k == 7:
                 return [[_ihatexml.nonXmlNameFirstBMPRegexp.match(chr(c)) is not None,
                          _ihatexml.nonXmlNameBMPRegexp.match(chr(c)) is not None]
@@ -175,6 +189,11 @@ class C20(Plugin):
             ok = set(" \r\nabcdefghijklmnopqrstuvwxyzABCDEFGHIJKLMNOPQRSTUVWXYZ0123456789-'()+,./:=?;!*#@$_%")
             if any(c not in ok for c in out) or (case["sq"] and "'" in out):
                 v.append(("pubid-illegal-char", repr(out)))
+        if k == 8:
+            for n, r in zip(case["names"], out):
+                sur = any(0xD800 <= ord(c) <= 0xDFFF for c in n)
+                if ":" not in n and not sur and all(ord(c) < 0x10000 for c in n) and expat_accepts(n) and r != [n]:
+                    v.append(("legal-name-changed", repr((case["names"], case.get("pubid"), n, r))))
         if k == 6:
             for c, bf, br, ef, er, cef, cer, rtf, rtr in out:
                 if 0xD800 <= c <= 0xDFFF:
